@@ -33,6 +33,10 @@ def setup(J):
         b = TIERS["quick" if tier == "quick" else "thorough"]
         jobs = [{"id": "C13-paths-shard%02d" % i, "prop": "C13", "kind": "c13", "mode": "single", "budget": 100 if tier == "quick" else 900, "oracles": [], "events_dep": False,
                  "args": dict({k: str(v) for k, v in b.items()}, shard=str(i), nshards=str(NSHARDS), tier=tier)} for i in range(NSHARDS)]
+        # process names are free text: a name with '/' (sub-folder style), with blanks and capitals, one shard each
+        for k, pn in enumerate(("qc/count", "Map Reads", "a/../b")):
+            jobs.append({"id": "C13-paths-procname%d" % k, "prop": "C13", "kind": "c13", "mode": "single", "budget": 100 if tier == "quick" else 900, "oracles": [], "events_dep": False,
+                         "args": dict({kk: str(v) for kk, v in b.items()}, shard=str(k), nshards=str(NSHARDS * (4 if tier == "quick" else 1)), tier=tier, procname=pn)})
         # a JOINED in-port ({i:x|join:SEP}): every member resolves from inside the working directory of the task,
         # members given with relative and with absolute paths (scenario and oracle of C18, judged for C13)
         for k, sep, ab in ((2, " ", True), (1, ",", True), (2, " ", False)):
@@ -45,6 +49,7 @@ def setup(J):
         return {"level": "exploration", "stages": [lambda ctx, prev: jobs],
                 "rule": rule,
                 "assumptions": [
+                    "process name = p, and one shard each under the names qc/count, Map Reads, a/../b (names are free text; the temp directory is derived from them)",
                     "reference model written from docs/writing_workflows.md + README only (placeholders are replaced by the actual file names; SetOut declares the output path; an .audit.json accompanies every output); it knows nothing about temp directories or the __parent__/__fsroot__ encoding",
                     "a file written at '{o:out}.sib' (substituted placeholder + suffix: the idiom of tools that write an index next to their output) is expected at '<declared path>.sib'; for in-cwd paths this is the statement's 'same relative location', for ../ and absolute destinations it is what TestExtraFilesFinalizePathsAbsolute pins",
                     "not judged: empty directories that appear (counted as stray_directories_not_judged), contents of the audit file, text of the formatted command",
